@@ -4,8 +4,8 @@ package main
 // its success paths, with destinations and widths.
 
 import (
-	"go/token"
 	"fmt"
+	"go/token"
 	"sort"
 	"strings"
 
